@@ -60,6 +60,12 @@ func c13Abs(c *Case) {
 	if g.Chance(0.2) {
 		e = xref.Bin{Op: "|", L: e, R: c13Path(g, env, true)}
 	}
+	switch g.Intn(6) {
+	case 0: // a parenthesised absolute path, possibly continued
+		e = xref.Group{X: e}
+	case 1:
+		e = xref.Path{Start: xref.Group{X: e}, Steps: []*xref.Step{g.FreeStep(env.Names)}}
+	}
 	src := xref.Render(e)
 	want, ok, why := refNodeSet(e, xref.NewCtx(d.Root))
 	if !ok {
